@@ -535,6 +535,7 @@ def check_c17(prop, tier, seed):
                      ("chain", lambda: L_.list(L_.chain(big, big))), ("reduce", lambda: L_.reduce(max, big)),
                      ("tee", lambda: L_.list(L_.tee(big, n=1)[0])), ("enumerate", lambda: L_.list(L_.enumerate(big))),
                      ("any_iter", lambda: L_.list(L_.any_iter(big))),
+                     ("iter", lambda: L_.list(L_.iter(iter([7] * 3000 + [None]).__next__, None))),      # the same object again and again
                      ("cycle", lambda: L_.list(L_.islice(L_.cycle([1, 2, 3]), 5000))), ("accumulate", lambda: L_.list(L_.accumulate(big))),
                      ("batched", lambda: L_.list(L_.batched(big, 3))), ("pairwise", lambda: L_.list(L_.pairwise(big))),
                      ("takewhile", lambda: L_.list(L_.takewhile(lambda x: True, big))), ("dropwhile", lambda: L_.list(L_.dropwhile(lambda x: x < 5000, big))),
@@ -622,6 +623,28 @@ def check_c17(prop, tier, seed):
                 pass
         while not t1.done:
             t1.step()
+    # an ExitStack whose exit suppresses a cancellation (asyncio's own exception class): what that means for the task is
+    # the event loop's business, the library does not reach for asyncio
+    import asyncio as _asyncio  # noqa: PLC0415
+
+    class Suppress:
+        async def __aenter__(self):
+            return self
+
+        async def __aexit__(self, et, ev, tb):
+            return True
+
+    async def cancelled_block():
+        async with L_.ExitStack() as st:
+            await st.enter_context(Suppress())
+            raise _asyncio.CancelledError()
+        return "suppressed"
+
+    before = len(tm.LIB_ASYNCIO_CALLS)
+    r = Task(cancelled_block(), Accounting()).step()
+    runs += 1
+    if len(tm.LIB_ASYNCIO_CALLS) != before or r != ("done", "suppressed"):
+        v.violation("C17/ExitStack/library-uses-asyncio", {"engine": "scenario", "observed": {"calls": tm.LIB_ASYNCIO_CALLS[before:][:3], "result": repr(r)[:100]}})
     # importing and using the library needs no running loop and creates none
     code = ("import asyncio, asyncio.events as ev, sys; sys.path.insert(0, %r); import asyncstdlib as a\n"
             "assert ev._get_running_loop() is None\n"
